@@ -19,8 +19,9 @@ UNIT == 256
 ThTable == << <<0, 0, 0>>, <<1, 0, 0>>, <<1, 2, 0>>, <<0, 2, 0>>, <<1, 2, 4>>, <<0, 2, 4>>, <<1, 3, 7>> >>
 KTable == << <<1, 1, 1>>, <<1, 3, 2>>, <<2, 2, 4>> >>
 DistFuns == << [a |-> RZero, b |-> <<1, 8>>], [a |-> <<-1, 8>>, b |-> <<1, 4>>], [a |-> RZero, b |-> RZero],
-               [a |-> <<-3, 20>>, b |-> <<3, 10>>] >>
-DistReq == << [a |-> 0, b |-> UNIT \div 8], [a |-> 0 - (UNIT \div 8), b |-> UNIT \div 4], [a |-> 0, b |-> 0], [none |-> TRUE] >>
+               [a |-> <<-3, 20>>, b |-> <<3, 10>>], [a |-> <<-1, 2>>, b |-> <<1, 2>>] >>
+DistReq == << [a |-> 0, b |-> UNIT \div 8], [a |-> 0 - (UNIT \div 8), b |-> UNIT \div 4], [a |-> 0, b |-> 0], [none |-> TRUE],
+             [a |-> 0 - (UNIT \div 2), b |-> UNIT \div 2] >>
 
 Instances == UNION {[n : {sh \div 10}, m : {sh % 10}, vals : [1..(sh \div 10) -> [1..(sh % 10) -> EVals]],
                      th : [1..(sh % 10) -> ThCfgs], k : KCfgs, ty : [1..(sh % 10) -> {"gain", "cost"}], f : Funs] : sh \in Shapes}
